@@ -13,6 +13,21 @@ CLAIMED = {
     "C02": ("bounded symbolic model checking of accept/reject: documents with unconstrained depths (level jumps, indented first row) and one malformed row of each class at every position; z3 decides err != nil <=> some row offends, that a format error names the first offending row, and that an accepted document is rendered completely",
             "trusted: as C01; malformation classes at byte level (no bullet, empty text, bad indentation, mixed tabs/spaces) are decided by the L-parse jobs of C15; bound = number of rows, one malformed row per document",
             "DESIGN.md 5 C02"),
+    "C03": ("bounded symbolic model checking of a relational property: symbolic programs of NewRoot/Add (solver-chosen parents, names that may coincide) and the Markdown spelling of the same tree are run through both API families on the same symbols and z3 decides equality of text (opaque branch strings), encoded records, walk and iterator traces; aliases agree; nil / non-root arguments are rejected with the sentinel errors before any write, callback or file-system call",
+            "trusted: Parse contract, path contracts, encoder stubs, file-system model (see assumptions in the evidence); bound = number of Add calls",
+            "DESIGN.md 5 C03"),
+    "C04": ("bounded symbolic model checking of the tree -> {value, children} conversion (the real toFormattedNode instantiations and the one-Encode-per-root loops of both API families) against the reference forest; the encoder libraries themselves are stubs",
+            "the bytes produced by encoding/json, yaml.v3 and go-toml (quoting of hostile names) cannot be encoded (reflection) and are outside the solver's claim; the native replays decode the real bytes of the solver's models with the real decoders",
+            "DESIGN.md 5 C04"),
+    "C05": ("bounded symbolic model checking of the walkers: every visit's Name/Branch/Row/Level/Path/HasChild equals the reference facts in text-output order for every forest up to the bound with opaque names and branch strings; the callback fails / the consumer breaks at a symbolic visit index and z3 decides that nothing is visited afterwards and the error is returned unchanged; the iterator forms run the real iter.Pull2 code",
+            "trusted: Parse contract, path.Join contract on single-element names, iter.newcoro/coroswitch as coroutine hand-off; bound = number of nodes",
+            "DESIGN.md 5 C05"),
+    "C13": ("bounded symbolic model checking over call histories: every sequence of Add / second NewRoot / unrelated From-Markdown call / From-Root operation up to the length bound, with the package-level index counter as ordinary global state; z3 decides that each result equals the reference rendering of the tree's current model and that repeating an operation repeats its result",
+            "sequential histories only (the concurrent-use clause needs a memory model and is outside the claim); bound = history length, two live trees",
+            "DESIGN.md 5 C13"),
+    "C14": ("bounded symbolic model checking with the fault position as a symbolic variable: the reader fails after k rows / the writer refuses write j (k, j solver-chosen) on every forest up to the bound and every sequential output mode of both API families; z3 decides that the reader's error is returned (errors.Is) and that nil is returned only if the writer accepted the complete output",
+            "trusted: bufio.Scanner/bufio.Writer contracts, encoder stubs perform one Write per Encode (the real yaml/toml encoders may split writes; covered only by native replays); short writes with nil error not modelled; massive mode under C11",
+            "DESIGN.md 5 C14"),
 }
 
 NOT_YET = "check under construction in this session (engine built first; see DESIGN.md 5)"
